@@ -829,6 +829,12 @@ func c12Hist(args []string) error {
 	defer w.Close()
 	nw := newNDWriter(w)
 	defer nw.flush()
+	// a panic of the table under test ends the history with a "panic" event (an observation, not a harness failure)
+	defer func() {
+		if p := recover(); p != nil {
+			nw.write(obj{"n": -1, "op": -1, "panic": fmt.Sprint(p)})
+		}
+	}()
 	rnd := rand.New(rand.NewSource(seed()))
 	th := &starlark.Thread{}
 	dists := []func(i int) uint32{
